@@ -174,7 +174,7 @@ func TestVerifC04(t *testing.T) {
 							continue
 						}
 						sc := c04cfg{insecure: insecure, tlsMode: tm, serverName: sn, starttls: st, cert: cert}
-						scs = append(scs, hx.Scenario{Name: sc.name(), Opt: vrt.Options{Bound: 0}, Body: c04body(sc), Verdict: c04verdict})
+						scs = append(scs, hx.Scenario{Name: sc.name(), Opt: vrt.Options{Bound: thoroughBound(2)}, Body: c04body(sc), Verdict: c04verdict})
 					}
 				}
 			}
@@ -187,7 +187,7 @@ func TestVerifC04(t *testing.T) {
 						continue
 					}
 					sc := c04cfg{insecure: insecure, tlsMode: tm, starttls: st, cert: cert, reconnect: true}
-					scs = append(scs, hx.Scenario{Name: sc.name(), Opt: vrt.Options{Bound: 0}, Body: c04body(sc), Verdict: c04verdict})
+					scs = append(scs, hx.Scenario{Name: sc.name(), Opt: vrt.Options{Bound: thoroughBound(2)}, Body: c04body(sc), Verdict: c04verdict})
 				}
 			}
 		}
